@@ -28,7 +28,7 @@ fn main() {
       files.push((args[i].clone(), std::fs::read_to_string(&args[i + 1]).unwrap()));
       i += 2;
     }
-    let pkg = fc::FcPackage { name: "@s/a".into(), version: "1.0.0".into(), exports: vec![(".".into(), format!(".{}", files[0].0))], files };
+    let pkg = fc::FcPackage { name: "@s/a".into(), version: "1.0.0".into(), exports: vec![(".".into(), format!(".{}", files[0].0))], workspace: false, files };
     let r = fc::fast_check(&[pkg], None, &ch).unwrap();
     for (u, (_, slot)) in &r.modules {
       println!("=== {u}");
